@@ -92,7 +92,7 @@ class FixedMatrix
         unref();
     }
     
-    Py_ssize_t convert_index(int index) const
+    Py_ssize_t convert_index(Py_ssize_t index) const
     {
         if (index < 0) index += _rows;
         if (index >= _rows || index < 0) {
@@ -115,7 +115,10 @@ class FixedMatrix
 		    boost::python::throw_error_already_set();
             }
         } else if (PyInt_Check(index)) {
-            Py_ssize_t i = convert_index(PyInt_AS_LONG(index));
+            Py_ssize_t idx = PyInt_AsSsize_t(index);
+            if (idx == -1 && PyErr_Occurred())
+                boost::python::throw_error_already_set();
+            Py_ssize_t i = convert_index(idx);
             start = i; end = i+1; step = 1; slicelength = 1;
         } else {
             PyErr_SetString(PyExc_TypeError, "Object is not a slice");
